@@ -158,3 +158,29 @@ def worst(got, ref, scale, rtol, atol=0.0):
     err = np.abs(got - ref) / tol
     idx = np.unravel_index(np.argmax(err), err.shape)
     return float(err[idx]), tuple(int(i) for i in idx)
+
+
+REUSE_COORDS = ('offset', 'geom', 'r', 'alpha', 'fbase', 'ord', 'sub', 'preload', 'mu')
+REUSE_ATTRS = ('a', 'b', 'r', 'alphadeg', 'offset', 'm', 'n', 'y1', 'y2', 'Nxx_cte', 'Nyy_cte', 'Nxy_cte', 'mu') + tuple(FLAGS)
+
+
+def retarget(p_old, cfg_new):
+    """Change the definition attributes of an existing Panel object to those of cfg_new (same model family)."""
+    donor = make_panel(cfg_new)
+    for att in REUSE_ATTRS:
+        if att in ('r', 'alphadeg') and cfg_new.get('model') not in ('cpanel', 'kpanel'):
+            continue
+        setattr(p_old, att, getattr(donor, att))
+    return p_old
+
+
+def neighbour(lp_full, coords, lp):
+    """Pick one deviated re-usable coordinate of the lattice point and return the neighbouring point with that
+    coordinate moved back to (or away from) its default; None if the point has no re-usable deviation."""
+    devs = [q for q in lp if q in REUSE_COORDS or q.startswith('t_')]
+    if not devs:
+        return None, None
+    q = sorted(devs)[-1]
+    nb = dict(lp_full)
+    nb[q] = coords[q][0] if coords[q][0] != nb[q] else coords[q][1]
+    return nb, q
